@@ -20,6 +20,24 @@ DONE = {
          "per-call invariants on the decoded slot tiling and free lists plus a size bound derived from observed peaks."),
  "C07": ("exploration", "differential execution of one generated history under k generated parameter sets against one model; reopen under foreign parameters",
          "each history runs under 4 (10) parameter sets incl. tiny tables and minimal buffers; all must agree with the model and the stored table size must survive reopen."),
+ "C08": ("exploration", "bounded-exhaustive breadth-first enumeration of on-disk images over a small colliding alphabet from seeded images at offset-width boundaries, plus seeded random deep walks; model + independent decoder at every transition",
+         "systematic state-space exploration of the image graph around the 16 KiB (2 MiB) offset-width boundaries; exhaustive only where the evidence says the graph was closed under the cap."),
+ "C09": ("exploration", "exhaustive length sweep of the crate's slot-size arithmetic through the layout-probe hook + end-to-end sentinel sweep over lengths",
+         "the arithmetic part enumerates every value length up to 16 MiB+64 KiB and every key length up to 64 KiB x offset widths (complete); the end-to-end part stores ~9000 lengths between sentinels."),
+ "C10": ("exploration", "boundary-biased generated integers / byte strings; round-trip, by-value == by-ref, equality <=> same entry",
+         "hundreds of thousands of integer pairs at every encoding boundary plus typed maps and prefix/NUL/non-UTF-8 key families."),
+ "C11": ("exploration", "model-based interleaved histories over 2-5 maps with generated handle churn; one model per map; byte comparison of the other maps' files",
+         "generated interleavings over several maps and handles, cross-talk observed on the raw files."),
+ "C12": ("exploration", "committed golden images written by the pinned commit: independent decode vs expected contents and placement, open under the current build, byte comparison, random continuation histories",
+         "15 golden images from the pinned release are decoded, opened, re-written and continued by generated histories."),
+ "C13": ("exploration", "enumeration of type pairs x file position and of single-byte signature mutations; open must be refused and files unchanged",
+         "all ordered type pairs x 4 positions and all 16 signature bytes x 3 files x 5 types (thorough: all 255 values, exhaustive)."),
+ "C15": ("exploration", "generated read-only sessions on generated closed states; results vs model and files byte-identical before/after",
+         "generated read-only call sequences on states from generated histories; raw bytes compared."),
+ "C16": ("fault_enumeration", "RLIMIT_FSIZE write refusals injected in a child process at every buffer-chunk boundary threshold; recovery and durability oracle",
+         "each threshold between 'nothing fits' and 'everything fits' for three workload shapes x flush/sync_data/sync_all is injected; error reporting, in-memory view and recovery are checked."),
+ "C18": ("exploration", "each generated update history executed twice (second run in a spawned process, other directory, read-only calls spliced in); byte comparison of the files",
+         "differential comparison of two executions of the same update history."),
  "C14": ("exploration", "generated batches inside model-based histories; element-wise model results as oracle",
          "position-wise comparison of every bulk call with the element-wise model, state comparison after every writing batch."),
  "C17": ("exploration", "generated histories; every statistics figure recomputed from the independent decoder after every call",
